@@ -649,13 +649,40 @@ class ListOp(Op):
         meth = op["method"]
         if meth in ("insert", "append", "extend", "iadd", "setitem", "setslice"):
             I = op["ir"]
-            cur = w.m.nodes[I].a["modules"]
+            m = w.m
+            cur = list(m.nodes[I].a["modules"])
             incoming = [l for l in self._arg_labels(op) if l not in cur]
             inc = []
             for l in incoming:
                 if l not in inc:
                     inc.append(l)
-            if inc and collides(w, inc, I):
+            if not inc:
+                return True
+            # modules that leave the list in the same operation make room:
+            # the UUID-distinctness precondition is about the state before
+            # and after the operation
+            leaving = []
+            try:
+                L = list(cur)
+                a = op.get("args", [])
+                if meth == "setitem":
+                    L[a[0]] = a[1]
+                elif meth == "setslice" and not (isinstance(a[1], dict) and "raise_after" in a[1]):
+                    L[_slice(a[0])] = list(a[1]["items"])
+                leaving = [x for x in cur if x not in L]
+            except (IndexError, ValueError):
+                leaving = []
+            gone = set()
+            for x in leaving:
+                gone.update(m.subtree(x))
+            sub = set()
+            for c in inc:
+                sub.update(m.subtree(c))
+            uu = [m.nodes[l].uuid for l in sub]
+            if len(set(uu)) != len(uu):
+                return False
+            others = [l for l in m.subtree(I) if l not in sub and l not in gone]
+            if set(uu) & m.uuids(others):
                 return False
         return True
 
@@ -751,7 +778,7 @@ class ListOp(Op):
         args = op.get("args", [])
         L0 = list(m.nodes[I].a["modules"])
         L = list(L0)
-        owner = ("C16",)
+        owner = ("C16", "C04")
 
         def items(a):
             if isinstance(a, dict):
